@@ -100,7 +100,7 @@ def shards(tier, seed):
                 sh.append(("sweep", conn, tr, h, c))
             sh.append(("sweep", conn, tr, hs[k % len(hs)], 0))  # the target grants connection id 0
     sh.append(("corpus",))
-    sh += [("corpus", regime) for regime in ("3/4", "1/2", "1")]  # the same corpus with every send() accepting only part of the frame
+    sh += [("corpus", regime) for regime in ("3/4", "1/2", "1", "tail1", "tail3", "tail21", "tail23")]  # the same corpus with every send() accepting only part of the frame
     # the call histories of C10 (one transport fault at every I/O index): frames after a failed close / reopen etc.
     for drv in ("cip", "logix_noinit", "slc"):
         for pol in ("ok", "large08", "nofclose"):
@@ -128,7 +128,7 @@ def run_shard(shard, tier, seed):
         corpus.SEND_REGIME = regime
         for label, w, t in corpus.scenarios(tier):
             if regime:
-                label = f"{label}/short-writes-{regime}"
+                label = f"{label}/short-writes-{regime}" if not regime.startswith("tail") else f"{label}/replies-in-two-segments-{regime}"
             probs = frame_violations(w, t)
             rep.case(("corpus", label), outcome="ok" if not probs else probs[0][0], calls=len(w.messages))
             rep.add("states", len(w.messages))
